@@ -45,7 +45,10 @@ func c16OpenDB(dir string) (*zenodb.DB, error) {
 		return nil, err
 	}
 	err = db.ApplySchema(zenodb.Schema{"t": &zenodb.TableOpts{MinFlushLatency: time.Hour, MaxFlushLatency: 2 * time.Hour,
-		RetentionPeriod: 1000 * time.Second, SQL: c16Schema}})
+		RetentionPeriod: 1000 * time.Second, SQL: c16Schema},
+		// a table whose GROUP BY makes the stored key longer than the dimensions it is derived from
+		"tx": &zenodb.TableOpts{MinFlushLatency: time.Hour, MaxFlushLatency: 2 * time.Hour,
+			RetentionPeriod: 1000 * time.Second, SQL: "SELECT SUM(a) AS a FROM inbound GROUP BY CONCAT('_', d1, d1) AS dd, d2, period(1s)"}})
 	return db, err
 }
 
@@ -258,6 +261,7 @@ func c16Payloads() []payload {
 		{desc: "many dims", dims: manyDims(200), vals: d(map[string]interface{}{"a": 1.0})},
 		{desc: "a dimension value of 70 KB (a row file stores key lengths in 16 bits)", dims: d(map[string]interface{}{"d1": strings.Repeat("x", 70000), "d2": 1}), vals: d(map[string]interface{}{"a": 1.0})},
 		{desc: "5000 dims, 90 KB of key", dims: manyDims(5000), vals: d(map[string]interface{}{"a": 1.0})},
+		{desc: "a dimension value of 40 KB: fits the limit, the key a GROUP BY derives from it does not", dims: d(map[string]interface{}{"d1": strings.Repeat("k", 40000), "d2": 2}), vals: d(map[string]interface{}{"a": 1.0})},
 		{desc: "a dimension value of exactly 65535 bytes", dims: d(map[string]interface{}{"d1": strings.Repeat("y", 65535)}), vals: d(map[string]interface{}{"a": 1.0})},
 		{desc: "empty key and empty names", dims: d(map[string]interface{}{"": ""}), vals: d(map[string]interface{}{"": 1.0})},
 		{desc: "magic _points value", dims: base, vals: d(map[string]interface{}{"_points": 5.0, "a": 1.0})},
@@ -532,7 +536,7 @@ func runC16Worker(e *Env) error {
 			vts, dims, vals := valid(nValid)
 			db.Insert("inbound", vts, dims, vals)
 			nValid++
-			if waitCaughtUp(db, "t", 0) != nil {
+			if waitCaughtUp(db, "t", 0) != nil || waitCaughtUp(db, "tx", 0) != nil {
 				res["alive"] = "hang"
 			} else {
 				// the stored dimensions now flow through query-side code as well (IN-subquery collects them in a map)
@@ -572,6 +576,18 @@ func runC16Worker(e *Env) error {
 							}
 							if int(total) != nValid {
 								return fmt.Errorf("valid points lost after the flush: have %v want %d", total, nValid)
+							}
+							// the same for the table with the derived key
+							_, rows, err = runQuery(db, "SELECT _points FROM tx WHERE dd = 'v1_v1' OR dd = 'v2_v2' GROUP BY _", mem)
+							if err != nil {
+								return err
+							}
+							total = 0.0
+							for _, r := range rows {
+								total += r.Vals[0]
+							}
+							if int(total) != nValid {
+								return fmt.Errorf("valid points lost in tx after the flush: have %v want %d", total, nValid)
 							}
 						}
 						return nil
